@@ -346,6 +346,9 @@ impl TcpNameserver {
         loop {
             let last_send_activity = self.tcp_last_send_activity;
             let last_recv_activity = self.tcp_last_recv_activity;
+            #[cfg(erbium_verif)]
+            let (last_send_activity, last_recv_activity) =
+                (verif_idle_shift(last_send_activity), verif_idle_shift(last_recv_activity));
             if self.tcp.is_some() {
                 /* We have an open TCP connection, so listen on both the TCP connection and the request
                  * channel.
@@ -376,13 +379,13 @@ impl TcpNameserver {
                     /* If we have stopped sending queries, then close down the idle channel to
                      * spare resources on the server side.
                      */
-                    () = tokio::time::sleep_until(last_send_activity + tcp_idle_timeout()).fuse() => {
+                    () = tokio::time::sleep_until(last_send_activity + std::time::Duration::from_secs(120)).fuse() => {
                             self.tcp_teardown(Error::TcpConnection("TCP Connection idle".into()));
                     },
                     /* If the other end isn't replying to us at all (despite us sending new
                      * requests), then close down the connection.
                      */
-                    () = tokio::time::sleep_until(last_recv_activity + tcp_idle_timeout()).fuse() => {
+                    () = tokio::time::sleep_until(last_recv_activity + std::time::Duration::from_secs(120)).fuse() => {
                             self.tcp_teardown(Error::TcpConnection("Timed out waiting for TCP replies".into()));
                     },
                 }
@@ -412,18 +415,17 @@ impl TcpNameserver {
     }
 }
 
-/// How long an upstream TCP connection may stay idle (nothing sent, or nothing received) before it is closed.
-#[cfg(not(erbium_verif))]
-fn tcp_idle_timeout() -> std::time::Duration {
-    std::time::Duration::from_secs(120)
-}
-
-/// Verification hook: the idle time of upstream TCP connections in milliseconds (default: the 120 s above).
+/// Verification hook: the idle time of upstream TCP connections in milliseconds (120 s unless set): the two
+/// activity stamps the idle timers of `TcpNameserver::run` start from are moved back by the difference.
 #[cfg(erbium_verif)]
 pub static VERIF_TCP_IDLE_MS: std::sync::atomic::AtomicU64 = std::sync::atomic::AtomicU64::new(120_000);
 #[cfg(erbium_verif)]
-fn tcp_idle_timeout() -> std::time::Duration {
-    std::time::Duration::from_millis(VERIF_TCP_IDLE_MS.load(std::sync::atomic::Ordering::Relaxed))
+fn verif_idle_shift(t: Instant) -> Instant {
+    let idle = std::time::Duration::from_millis(VERIF_TCP_IDLE_MS.load(std::sync::atomic::Ordering::Relaxed));
+    std::time::Duration::from_secs(120)
+        .checked_sub(idle)
+        .and_then(|d| t.checked_sub(d))
+        .unwrap_or(t)
 }
 
 fn create_outquery(id: u16, in_query: &dnspkt::DNSPkt) -> dnspkt::DNSPkt {
